@@ -174,6 +174,18 @@ def _uniform(col, rule="C14.R2"):
                     f"{len(cols_ok)} column contributions, {len(scalars)} scalar contributions of {len(cs)}")
             col.add(rule, f"Table.{meth}#no-column-skipped", not guarded, sx.loc(r), "no column of the list is skipped",
                     str([[S.show(g) for _, g in c[1]] for c in guarded]))
+            if meth == "_select":
+                # the lookup and its expression fallback read the one row view (the whole table `self[cc]` has another length)
+                bases = set()
+                for c in cols_ok:
+                    if c in scalars:
+                        continue
+                    for x in (c[3][1] if c[3][:1] == ("alt",) else (c[3],)):
+                        bases.add(x[1] if x[:1] == ("sub",) else (x[2][2] if len(x[2]) > 2 else ("const", "None")))
+                okb = len(bases) == 1 and S.SELF not in bases
+                col.add(rule, "Table._select#columns-read-from-the-row-view", okb, sx.loc(r),
+                        "each requested column -- stored or computed from an expression -- is taken from the same row-restricted view, so all "
+                        "have the selection's length", str(sorted(S.show(b)[:60] for b in bases)))
     sx = tctx(repo, "keys")
     want = ("op", "-", S.fcall("set", DATA), S.fcall("set", NAMES))
     rets = [r for r in sx.of_kind("return") if sx.pnamed("exclude_columns") in sx.conds(r.nid)]
@@ -241,6 +253,54 @@ def _expressions(col, rule="C14.R2"):
     ok = any(c[3] == ("sub", S.SELF, c[2]) for r, cs in _data_arg_contribs(sx) for c in cs)
     col.add(rule, "Table._select_cols#expressions-via-getitem", ok, sx.loc(sx.fn),
             "column selection evaluates each requested name/expression through table[...]", "")
+
+
+def _regex_uses(sx: SCtx, root, repo=None, cls=None, depth=2) -> list:
+    """calls that interpret a value derived from `root` as a regular expression"""
+    out = []
+    for ev in sx.of_kind("call"):
+        t = ev.term
+        if t[:1] != ("call",):
+            continue
+        f = t[1]
+        is_re = (f[:1] == ("attr",) and f[1] == ("glob", "re") and f[2] in ("compile", "match", "fullmatch", "search", "findall", "finditer", "sub", "split")) \
+            or (f[:1] == ("attr",) and f[2] in ("fullmatch",))
+        if not is_re:
+            continue
+        args = list(t[2]) + [v for _k, v in t[3]]
+        if any(x == root for a in args for x in S.subterms(a)):
+            out.append(ev)
+    # a helper that was not inlined (several exits inside a try, ...): follow the value into it
+    if depth > 0 and cls is not None:
+        for ev in sx.of_kind("call"):
+            t = ev.term
+            if t[:1] == ("call",) and t[1][:1] == ("attr",) and t[1][1] == S.SELF and t[1][2] in repo.cls(cls).methods and t[1][2].startswith("_") \
+                    and not t[1][2].startswith("__"):
+                for i, a in enumerate(t[2]):
+                    if any(x == root for x in S.subterms(a)):
+                        try:
+                            hx = tctx(repo, t[1][2], cls)
+                        except AnalysisError:
+                            continue
+                        if len(hx.sym.params) > i:
+                            out += _regex_uses(hx, hx.P(i), repo, cls, depth - 1)
+    return out
+
+
+def _no_pattern_columns(col, rule="C14.R2"):
+    """a requested column item is a stored name or an expression ('a+b', 'x.*y' are arithmetic): it is never matched as a pattern"""
+    repo = col.repo
+    ctl = tctx(repo, "_get_regexp_indices")
+    if not _regex_uses(ctl, ctl.P(0)):
+        raise AnalysisError("positive control: the regular-expression use in Table._get_regexp_indices is not recognised (cannot decide)")
+    for cls, meth, pname in (("_ColView", "__getitem__", "cols"), ("Table", "_select_cols", None), ("Table", "_select", "cols")):
+        sx = tctx(repo, meth, cls)
+        root = sx.pnamed(pname) if pname else sx.P(0)
+        uses = _regex_uses(sx, root, repo, cls)
+        col.add(rule, f"{cls}.{meth}#column-items-not-matched-as-patterns", not uses, sx.loc(uses[0]) if uses else sx.loc(sx.fn),
+                "requested column items go to the name lookup / expression evaluation as they are; none is expanded as a regular expression "
+                "over the column names (an expression such as 'a+b' would silently select a column named 'aab')",
+                S.show(uses[0].term)[:100] if uses else "")
 
 
 def _index_forced(col, rule="C14.R3"):
@@ -419,11 +479,21 @@ def _column_rebinding(col, rule="C14.R7"):
 
 
 def check(col: Collector):
-    _no_aliasing(col)
-    _uniform(col)
-    _expressions(col)
-    _index_forced(col)
-    _attrs(col)
-    _no_source_mutation(col)
-    _checked_ctor(col)
-    _column_rebinding(col)
+    with col.rule():
+        _no_pattern_columns(col)
+    with col.rule():
+        _no_aliasing(col)
+    with col.rule():
+        _uniform(col)
+    with col.rule():
+        _expressions(col)
+    with col.rule():
+        _index_forced(col)
+    with col.rule():
+        _attrs(col)
+    with col.rule():
+        _no_source_mutation(col)
+    with col.rule():
+        _checked_ctor(col)
+    with col.rule():
+        _column_rebinding(col)
